@@ -1,15 +1,16 @@
 """C09 - a sub-graph behaves the same inlined or nested, at any depth."""
 import engine_common as ec
 import engine_plugin as ep
+import c09shape as shp
 
 ID = "C09"
-LEAN_MODULES = ['HgVerif.Props.C09', 'HgVerif.Model.Engine', 'HgVerif.Model.Extracted']
-THEOREMS = ['HgVerif.Engine.nested_push_clamped', 'HgVerif.Engine.child_not_before_parent', 'HgVerif.Engine.root_schedule_direct', 'HgVerif.Sched.child_wakeups_kept', 'HgVerif.Sched.push_wakes_parent']
-CXX_TARGETS = ['hgv_engine']
+LEAN_MODULES = ['HgVerif.Props.C09', 'HgVerif.Model.Engine', 'HgVerif.Model.Extracted'] + list(shp.LEAN_MODULES)
+THEOREMS = ['HgVerif.Engine.nested_push_clamped', 'HgVerif.Engine.child_not_before_parent', 'HgVerif.Engine.root_schedule_direct', 'HgVerif.Sched.child_wakeups_kept', 'HgVerif.Sched.push_wakes_parent'] + list(shp.THEOREMS)
+CXX_TARGETS = ['hgv_engine'] + list(shp.CXX_TARGETS)
 USES_EXTRACT = True
-RULE = 'each generated sub-graph definition (stateful nodes, self-scheduling scripts, internal sources, passive/unchecked inputs) is wired twice in one parent, nested and inlined, with sinks on both outputs that must record equal streams; non-trivial = >=2 cycles with user code; distinct by program text'
-TRUSTED = ['forwarding output / ParentInput alias modelled as direct bindings to the leaf producer']
-ASSUMPTIONS = ['all ports TS[int]; REF-shaped boundaries are part of C13']
+RULE = 'each generated sub-graph definition (stateful nodes, self-scheduling scripts, internal sources, passive/unchecked inputs) is wired twice in one parent, nested and inlined, with sinks on both outputs that must record equal streams; non-trivial = >=2 cycles with user code; distinct by program text' + ' ' + shp.RULE
+TRUSTED = ['forwarding output / ParentInput alias modelled as direct bindings to the leaf producer'] + list(shp.TRUSTED)
+ASSUMPTIONS = ['all ports TS[int]; REF-shaped boundaries are part of C13'] + list(shp.ASSUMPTIONS)
 TECHNIQUE = 'Lean 4 proof of the nested scheduling invariants (clamp, child never ahead of parent) + differential correspondence + nested-vs-inlined reference monitor'
 LEVEL_TEXT = "Kernel-checked: an out-of-band schedule on an idle child is clamped to the parent's current time and reaches the parent node no later than that time; a child is never evaluated ahead of its parent. The executable model of nested start / evaluate / pull-propagate / push path is compared trace-for-trace with the runtime, and for every generated definition the nested and the inlined wiring must produce identical sink streams (monitor)."
 LEVEL_NOTE = 'Trusted: Lean kernel; model tied by correspondence. The full simulation theorem nested_sim_inlined is NOT proved; its statement is kept in Props/C09.lean and the equality is enforced by the monitor on generated programs (partial).'
@@ -18,12 +19,33 @@ LEVEL_NOTE = 'Trusted: Lean kernel; model tied by correspondence. The full simul
 def streams(rng, tier, seed):
     n = 150 if tier == "quick" else 4000
     progs = [ec.gen_nested(rng, both=True) for _ in range(n)]
-    return [ec.engine_stream("engine-nested", progs)]
+    return [ec.engine_stream("engine-nested", progs)] + shp.streams(rng, tier, seed)
 
 
-monitor = ep.monitor_for(ID)
-features = ep.features
-alarm_filter = ep.alarm_filter
-nontrivial = ep.nontrivial
+_mon = ep.monitor_for(ID)
 
-valid_case = ep.valid_case
+
+def monitor(stream, case, out):
+    return shp.monitor(stream, case, out) if stream.startswith("nestshape-") else _mon(stream, case, out)
+
+
+def features(stream, case, out):
+    return shp.features(stream, case, out) if stream.startswith("nestshape-") else ep.features(stream, case, out)
+
+
+def alarm_filter(stream, case, impl_out, model_out):
+    if stream.startswith("nestshape-"):
+        f = getattr(shp, "alarm_filter", None)
+        return f(stream, case, impl_out, model_out) if f else (True, [])
+    return ep.alarm_filter(stream, case, impl_out, model_out)
+
+
+def nontrivial(stream, case, out):
+    return shp.nontrivial(stream, case, out) if stream.startswith("nestshape-") else ep.nontrivial(stream, case, out)
+
+
+def valid_case(stream, case, impl_out, model_out):
+    if stream.startswith("nestshape-"):
+        f = getattr(shp, "valid_case", None)
+        return f(stream, case, impl_out, model_out) if f else True
+    return ep.valid_case(stream, case, impl_out, model_out)
